@@ -14,6 +14,21 @@ CHECKS = {
   ref="2 C10"),
 }
 
+CHECKS.update({
+ "C01": dict(
+  level="exploration",
+  technique="bounded-exhaustive enumeration of documents x context nodes x steps on the real evaluator, compared with a reference XPath evaluator by node identity",
+  text="Every ordered forest with <=4 (quick) / <=5 (thorough) nodes over {a,b,text,comment,PI} x 4 attribute/namespace decorations is built in the real store; every node of every kind is used as context node for all 13 axes x 12 node tests, the abbreviations, absolute paths in every syntactic position and two-step paths; results compared as identity sets with the reference evaluator.",
+  note="Trusted: reference evaluator refxp (own self-test), reference tree builder. Order of namespace/attribute nodes within an element taken from the implementation. Name tests on the namespace axis not compared (outside the statement).",
+  ref="2 C01"),
+ "C02": dict(
+  level="exploration",
+  technique="bounded-exhaustive enumeration of documents x predicate-bearing paths on the real evaluator against a reference evaluator",
+  text="All forests with <=4/5 nodes x 2 decorations x thousands of predicate-bearing expressions (every axis x tests x 30 predicates, ordered predicate pairs, nested predicates, filter expressions with predicates and continued paths, node-set variables and a user function as path heads); surviving nodes compared by identity with the reference.",
+  note="Trusted: reference evaluator refxp. Only which nodes survive is compared here (order is C03).",
+  ref="2 C02"),
+})
+
 NOT_YET = {}
 
 def main():
